@@ -675,3 +675,139 @@ def pl_case(apply_filters):
 
 for _af in (False, True):
     REG.add(pl_case(_af))
+
+
+# ---------------------------------------------------------------------------------------------------
+# calibration_test: the quantiles of the valid results, in order, go to the Kolmogorov-Smirnov test against the uniform law
+# ---------------------------------------------------------------------------------------------------
+from pyvc.contracts import LoopInv      # noqa: E402
+
+NOTVALID = z3.Function('result_is_not_valid', z3.IntSort(), z3.BoolSort())
+QD1 = z3.Function('result_delta_1', z3.IntSort(), z3.RealSort())
+QD2 = z3.Function('result_delta_2', z3.IntSort(), z3.RealSort())
+
+
+def _result_record(t):
+    """abstract evaluation result number t: status (compared with 'not-valid' only), quantile (delta_1, delta_2), name"""
+    t = to_z3(t)
+
+    def eq_value(I, other):
+        if other == 'not-valid':
+            return NOTVALID(t)
+        raise Unsupported('status compared with %r' % (other,))
+    from pyvc.core import Unsupported
+    return Opaque('evaluation_result', idx=t, status=Opaque('status', eq_value=eq_value), quantile=(QD1(t), QD2(t)),
+                  result_name=Opaque('name_of', idx=t))
+
+
+class CalibLoop(LoopInv):
+    """quantiles holds the chosen quantile of the valid results seen so far, in order: the entry of result s (if valid) sits at index
+    #{t < s : result t valid}"""
+
+    def trips(self, I, it):
+        return to_z3(it.n)
+
+    def item(self, I, it, i):
+        return it.f(to_z3(i))
+
+    def havoc(self, I, fr, i, it):
+        self.ENT = I.ctx.fresh_fun('entry', z3.IntSort(), z3.RealSort())
+        self.LEN = I.ctx.fresh_int('entries')
+        ENT = self.ENT
+        fr.locals['quantiles'] = SymList(self.LEN, lambda j: ENT(to_z3(j)), 'quantiles')
+        fr.locals.pop('result', None)
+
+    @staticmethod
+    def valid_count(upto):
+        t = z3.Int('i!cnt')
+        return CNT(z3.Lambda([t], z3.Not(NOTVALID(t))), to_z3(upto))
+
+    def inv(self, I, fr, i, it):
+        lst = fr.locals['quantiles']
+        use_d1 = I.ctx.ghost['calib_delta_1']
+        Q = QD1 if use_d1 else QD2
+        n_l = to_z3(lst.n) if isinstance(lst, SymList) else z3.IntVal(len(lst))
+        yield 'one entry per valid result seen', n_l == self.valid_count(i)
+        if isinstance(lst, list):
+            return
+
+        def clause(s):
+            return z3.Implies(z3.Not(NOTVALID(s)), to_real(lst.f(self.valid_count(s))) == Q(s))
+        if self.mode == 'prove':
+            s = I.ctx.fresh_int('s!sk')
+            self.sk = s
+            cur = simp(to_z3(i) - 1)
+            yield 'entries of earlier results are kept in place', z3.Implies(z3.And(0 <= s, s < cur), clause(s))
+            yield 'a valid result appends its chosen quantile', z3.Implies(cur >= 0, clause(cur))
+        else:
+            s = z3.Int('s!inv')
+            yield 'spec', z3.ForAll([s], z3.Implies(z3.And(0 <= s, s < to_z3(i)), clause(s)))
+
+    def step_lemmas(self, I, fr, i, it):
+        t = z3.Int('i!cnt')
+        B = z3.Lambda([t], z3.Not(NOTVALID(t)))
+        yield CNT(B, to_z3(i) + 1) == CNT(B, to_z3(i)) + z3.If(z3.Not(NOTVALID(to_z3(i))), 1, 0)
+        s = self.sk
+        yield z3.Implies(z3.And(0 <= s, s < to_z3(i), z3.Not(NOTVALID(s))), CNT(B, s) < CNT(B, to_z3(i)))
+        I.used_lemmas.add('L0.count_unfold')
+        I.used_lemmas.add('L3.count_prefix')
+
+
+def calibration_case(delta_1):
+    class CT:
+        qualname = CE + 'calibration_test'
+        case = 'list of any number of evaluation results, delta_1=%s' % delta_1
+        properties = ('C10',)
+        loops = {0: CalibLoop()}
+
+        def params(c):
+            from pyvc.core import Lam
+            n = c.int('n_results')
+            c.ctx.assume(n >= 1)
+            c.ctx.ghost['calib_delta_1'] = delta_1
+            seen = []
+
+            def kstest(sample, law, *a, **k):
+                ret = (c.ctx.fresh_real('ks_statistic'), c.ctx.fresh_real('ks_p_value'))
+                seen.append((sample, law, a, k, ret))
+                return ret
+            c.ctx.ghost['global_overrides'] = {('csep.core.catalog_evaluations', 'scipy'): Opaque('scipy', stats=Opaque('scipy.stats', kstest=Lam(kstest, 'kstest')))}
+            first = _result_record(0)
+            first.min_mw, first.obs_catalog_repr, first.sim_name, first.obs_name = (Opaque(k) for k in ('min_mw0', 'repr0', 'sim0', 'obs0'))
+            results = SymList(n, lambda t: first if simp(to_z3(t) == 0) is True else _result_record(t), 'evaluation_results')
+            return dict(evaluation_results=results, delta_1=delta_1, _n=n, _seen=seen, _first=first)
+
+        def ensures(c, r, evaluation_results, delta_1, _n, _seen, _first):
+            yield 'returns a result object', z3.BoolVal(isinstance(r, Obj))
+            yield 'one Kolmogorov-Smirnov test against the uniform law', z3.BoolVal(len(_seen) == 1 and _seen[0][1] == 'uniform' and not _seen[0][2] and not _seen[0][3])
+            if len(_seen) != 1:
+                return
+            sample = _seen[0][0]
+            Q = QD1 if delta_1 else QD2
+            ok = isinstance(sample, SymList)
+            yield 'the sample is the list of quantiles', z3.BoolVal(ok)
+            if ok:
+                yield 'one quantile per valid result (not-valid results are skipped)', to_z3(sample.n) == CalibLoop.valid_count(_n)
+                s = c.ctx.fresh_int('s!sk')
+                t = z3.Int('i!cnt')
+                B = z3.Lambda([t], z3.Not(NOTVALID(t)))
+                c.ctx.fact(z3.Implies(z3.And(0 <= s, s < _n, z3.Not(NOTVALID(s))), CNT(B, s) < CNT(B, _n)), lemma=True)       # L3_count_prefix_lt
+                c.I.used_lemmas.add('L3.count_prefix')
+                yield 'the quantile of valid result s (delta_1 if asked for, else delta_2) sits at position #{valid results before s}', z3.Implies(
+                    z3.And(0 <= s, s < _n, z3.Not(NOTVALID(s))), to_real(sample.f(CalibLoop.valid_count(s))) == Q(s))
+            f = r.fields
+            yield 'statistic and p-value of the KS test are the observed statistic and the quantile; the sample is the test distribution', z3.BoolVal(
+                f.get('observed_statistic') is _seen[0][4][0] and f.get('quantile') is _seen[0][4][1] and f.get('test_distribution') is sample
+                and f.get('status') == 'normal')
+            yield 'names and minimum magnitude are those of the first result', z3.BoolVal(
+                f.get('min_mw') is _first.min_mw and f.get('obs_catalog_repr') is _first.obs_catalog_repr and f.get('sim_name') is _first.sim_name
+                and f.get('obs_name') is _first.obs_name)
+
+        def raises(c, exc, **kw):
+            return None
+    CT.__name__ = 'CalibrationTest_%s' % delta_1
+    return CT
+
+
+for _d1 in (False, True):
+    REG.add(calibration_case(_d1))
